@@ -1,16 +1,21 @@
 ---------------------------- MODULE MC_MdEscape ----------------------------
 (* Exhaustive model check of the transcribed Markdown escapers against the reference, for every
-   string of length <= MaxLen over the Markdown alphabet and every string of length <= WsLen over the
-   white-space alphabet; export of the replay cases (strings only - no expected output).
+   string of length <= MaxLen over the 19-symbol Markdown alphabet, every string of length <= Len16
+   over its 16-symbol sub-alphabet and every string of length <= WsLen over the white-space alphabet;
+   export of the replay cases (strings only - no expected output).
 
-   The alphabet is the one listed in DESIGN 7/C26 ("16-symbol"; the list there has 19 symbols, all
-   19 are used):  * _ [ ] ( ) < > & # - 1 . space LF CR ` \ a.
-   The white-space alphabet adds TAB, which the main alphabet lacks: TAB space LF CR a # -. *)
+   Alphabet is the list of DESIGN 7/C26 (called "16-symbol" there; the list has 19 symbols):
+   * _ [ ] ( ) < > & # - 1 . space LF CR ` \ a.   Alphabet16 drops _ ] ) - each is handled by the same
+   switch arm of markdownEscape as * [ ( and never starts a construct that those cannot.
+   WsAlphabet adds TAB, which the main alphabet lacks: TAB space LF CR a # -.
+   CoreAlphabet (replay only, one symbol longer than the whole alphabet) adds ';' so that numeric
+   character references can be spelled: * [ < & # 1 ; LF. *)
 EXTENDS MdEscape, TLC, Json, FiniteSets, SequencesExt
-CONSTANTS MaxLen, WsLen, GenLen, GenWs, GenCore
+CONSTANTS MaxLen, Len16, WsLen, GenLen, GenWs, GenCore
 Alphabet == {42, 95, 91, 93, 40, 41, LT, GT, AMP, HASH, 45, 49, 46, SP, LF, CR, 96, BS, 97}
+Alphabet16 == Alphabet \ {95, 93, 41}
 WsAlphabet == {TAB, SP, LF, CR, 97, HASH, 45}
-CoreAlphabet == {42, 91, LT, AMP, HASH, 45, SP, LF}      \* replayed one symbol longer than the whole alphabet (GenCore)
+CoreAlphabet == {42, 91, LT, AMP, HASH, 49, SEMI, LF}
 Dict == <<
   <<43,32,97>>, <<97,10,61,61,61>>, <<97,10,45,45,45>>, <<126,126,126,10,97>>, <<96,96,96,10,97>>,
   <<124,97,124,10,124,45,124,10,124,98,124>>, <<33,91,97,93,40,98,41>>, <<91,97,93,40,98,41>>,
@@ -33,8 +38,10 @@ CdOf(u) == [ft |-> CodeEsc(u, FALSE, FALSE) \o CodeRest, fs |-> CodeEsc(u, TRUE,
             xt |-> CodeEsc(u, FALSE, TRUE) \o CodeRest,  xs |-> CodeEsc(u, TRUE, TRUE) \o CodeRest]
 Init == s = <<>> /\ md = MdOf(<<>>) /\ cd = CdOf(<<>>)
 OverWs == \A k \in 1..Len(s) : s[k] \in WsAlphabet
+Over16 == \A k \in 1..Len(s) : s[k] \in Alphabet16
 Grow(c) == s' = Append(s, c) /\ md' = MdOf(s') /\ cd' = CdOf(s')
 Next == \/ Len(s) < MaxLen /\ \E c \in Alphabet : Grow(c)
+        \/ Len(s) < Len16 /\ Over16 /\ \E c \in Alphabet16 : Grow(c)
         \/ Len(s) < WsLen /\ OverWs /\ \E c \in WsAlphabet : Grow(c)
 
 (* ---- paragraph context ---- *)
@@ -64,7 +71,13 @@ ASSUME \A k \in 1..Len(Dict) : /\ RoundTrip(Dict[k], MdEsc(Dict[k], TRUE)) /\ CF
                                /\ Confined(CodeEsc(Dict[k], TRUE, TRUE) \o CodeRest)
 
 (* ---- case export: inputs only ---- *)
-Strings == SeqsUpTo(Alphabet, GenLen) \cup SeqsUpTo(WsAlphabet, GenWs) \cup SeqsUpTo(CoreAlphabet, GenCore) \cup {Dict[k] : k \in 1..Len(Dict)}
-Cases == LET S == SetToSeq(Strings) IN [i \in 1..Len(S) |-> [id |-> i, s |-> S[i]]]
+DictSet == {Dict[k] : k \in 1..Len(Dict)}
+Strings == SeqsUpTo(Alphabet, GenLen) \cup SeqsUpTo(WsAlphabet, GenWs) \cup SeqsUpTo(CoreAlphabet, GenCore) \cup DictSet
+\* which slice a string belongs to (the check shows the longest strings of slices "a" and "c" in fewer placements
+\* in the thorough tier): d dictionary, w white-space alphabet, a whole alphabet, c core alphabet
+Kind(x) == IF x \in DictSet THEN "d"
+           ELSE IF Len(x) <= GenWs /\ (\A k \in 1..Len(x) : x[k] \in WsAlphabet) THEN "w"
+           ELSE IF Len(x) <= GenLen /\ (\A k \in 1..Len(x) : x[k] \in Alphabet) THEN "a" ELSE "c"
+Cases == LET S == SetToSeq(Strings) IN [i \in 1..Len(S) |-> [id |-> i, s |-> S[i], k |-> Kind(S[i])]]
 ASSUME ndJsonSerialize("cases.ndjson", Cases)
 =============================================================================
